@@ -19,6 +19,13 @@
 #include "complex_api.h"
 #endif
 
+/* void b64encode(const void*, size_t, Literal&) / b64decode(const void*, size_t, TabChar&) (base64.cpp; contracts: base64.c, jobs base64_encode / base64_decode):
+ * they read exactly the len bytes given and size their output */
+void _ZN4bloc9b64encodeEPKvmRNSt7__cxx1112basic_stringIcSt11char_traitsIcESaIcEEE(const void *d, unsigned long n, struct std_string *out)
+{ __CPROVER_assert(n == 0 || __CPROVER_r_ok(d, n), "b64encode: the len bytes are readable"); __CPROVER_assume(n <= MAXLEN / 2); SZ(out) = (n + 2) / 3 * 4; __havoc_str(out); }
+void _ZN4bloc9b64decodeEPKvmRSt6vectorIcSaIcEE(const void *d, unsigned long n, struct vec_char *out)
+{ __CPROVER_assert(n == 0 || __CPROVER_r_ok(d, n), "b64decode: the len bytes are readable"); if (n > 0) { unsigned long m = __g2c_nondet_ulong(); __CPROVER_assume(m <= n); SZ(out) = m; } }
+
 /* static Value& BuiltinExpression::handback(Context&, Value&) (expression_builtin.cpp; proved on its real body: job builtin_handback):
  * an owned argument is cloned into a temporary, a temporary is handed back itself */
 struct Value *_ZN4bloc17BuiltinExpression8handbackERNS_7ContextERNS_5ValueE(struct Context *ctx, struct Value *val)
